@@ -31,3 +31,20 @@ package jsonpath
 //@ func GetNamespace
 //@   property C14 C02
 //@   pure
+
+// Frames of the traveler helpers the processors call (ASSUMED, trusted): they build new
+// documents / travelers or update the documents of the traveler they are given; they do
+// not touch channels or anything else.
+//@ func SelectTravelerFields
+//@   trusted
+//@   modifies MapD. MapV. MapN SH. alloc H.gdbi. Box.
+//@   requires nonnil: t != nil
+//@   ensures nonnil: result != nil
+//@ func RenderTraveler
+//@   trusted
+//@   modifies MapD. MapV. MapN SH. alloc
+//@   requires nonnil: traveler != nil
+//@ func TravelerSetValue
+//@   trusted
+//@   modifies MapD. MapV. MapN SH. alloc
+//@   requires nonnil: traveler != nil
